@@ -202,6 +202,15 @@ def run(fn, xs, ys, k, limit=TIMEOUT_S):
     return ('ret', v)
 
 
+def run_confirmed(fn, xs, ys, k):
+    """`run`, where a time-limit outcome is believed only if it repeats under the longer limit
+    (a stray expiry of the first limit has been seen on a loaded machine)."""
+    t = run(fn, xs, ys, k)
+    if t[0] == 'timeout':
+        t = run(fn, xs, ys, k, TIMEOUT_CONFIRM_S)
+    return t
+
+
 def _num(v):
     if isinstance(v, Float):
         if v.isnan:
@@ -287,8 +296,10 @@ class Check(BaseCheck):
     rule = ('every program of the loop grammar (progen_c08: families F W R E; all statement sequences up to the '
             'tier bound x headers x naming schemes x ambient contexts) x every strategy instance x every site '
             'selection (None, each index, each cursor) x every input length 0..9 (x k=1..4 for a variable factor). '
-            'nontrivial = a DISTINCT (program, transformed text, input) whose transformed program text differs '
-            'from the original and on which the original returns and the precondition holds')
+            'evaluations = judged cases (run, or equal by textual identity with the original / with an already '
+            'judged transformed program); transitions = transformed programs actually run and compared; '
+            'nontrivial = a DISTINCT (program, transformed text, input) that was run, whose transformed text differs '
+            'from the original, on a non-empty input on which the original returns and the precondition holds')
     assumptions = [
         'metamorphic: only inputs on which the original returns are judged',
         'STRICT judged only where every rewritten loop has a length divisible by the factor (exact lengths)',
@@ -356,12 +367,18 @@ class Check(BaseCheck):
                       f'{spec} where={where} raised {type(e).__name__}: {str(e)[:300]}\n--- program\n{prog_src}')
             return
         if text == orig_text:
+            # nothing to rewrite at this site selection: equal on every input by identity
             r.outcomes['transform-left-program-unchanged'] += 1
-            r.count('states', len(self.inputs) if only_input is None else 1)
+            n = len(self.inputs) if only_input is None else 1
+            r.count('states', n)
+            r.count('evaluations', n)
+            r.count('judged_by_identity', n)
             return
         if text in seen_texts and only_input is None:
             # another site selection gave this very program: already judged on every input
             r.count('states', seen_texts[text])
+            r.count('evaluations', seen_texts[text])
+            r.count('judged_by_identity', seen_texts[text])
             r.count('same_text_as_judged')
             return
 
@@ -381,7 +398,7 @@ class Check(BaseCheck):
                 # the original does not read k: one run per (xs, ys)
                 okey0 = (tuple(xs), tuple(ys))
                 if okey0 not in originals:
-                    originals[okey0] = run(f, xs, ys, 2)
+                    originals[okey0] = run_confirmed(f, xs, ys, 2)
                 o = originals[okey0]
                 if o[0] == 'timeout':
                     # the grammar makes every original terminate; if one does not, the generator is wrong
@@ -402,13 +419,12 @@ class Check(BaseCheck):
                     unknown_len = any(n is None for n in lens)
                 if timed_out:
                     continue
-                t = run(g, xs, ys, k)
-                if t[0] == 'timeout':
-                    t = run(g, xs, ys, k, TIMEOUT_CONFIRM_S)
-                    timed_out = t[0] == 'timeout'
+                t = run_confirmed(g, xs, ys, k)
+                timed_out = t[0] == 'timeout'
                 r.count('evaluations')
                 r.count('transitions')
-                r.count('nontrivial')
+                if len(xs) > 0:
+                    r.count('nontrivial')
                 if t[0] == 'ret' and deep_same(o[1], t[1]):
                     r.outcomes[f"{spec['name']}:agree"] += 1
                     continue
